@@ -111,7 +111,7 @@ Lemma buffer_ok_bytes v : buffer_ok v = true -> bytes_ok v = true.
 Proof. unfold buffer_ok. intros H. now apply andb_prop in H. Qed.
 
 (* header_ok does not constrain the contents of key / namespace / manifest public key (only their
-   lengths), hence the three extra hypotheses *)
+   lengths), hence the three extra premises *)
 Lemma enc_header_bytes_ok h : header_ok h = true ->
   bytes_ok (hd_key h) = true -> bytes_ok (hd_ns h) = true -> bytes_ok (hd_mpk h) = true ->
   bytes_ok (enc_header h) = true.
@@ -196,3 +196,325 @@ Proof.
     rewrite ?bytes_ok_enc_tree_upgrade, ?bytes_ok_enc_bf_update by assumption;
     destruct ns; reflexivity.
 Qed.
+
+(* ---------- 3. frames ---------- *)
+
+Lemma take_app_n n a r : length a = n -> take n (a ++ r) = Some (a, r).
+Proof. intros <-. apply take_app. Qed.
+
+Lemma take_short n b : (length b < n)%nat -> take n b = None.
+Proof.
+  revert b; induction n as [|n IH]; intros b Hb; [lia|]. cbn [take].
+  destruct b as [|x b]; [reflexivity|]. cbn [length] in Hb. rewrite IH by lia. reflexivity.
+Qed.
+
+Lemma len_field_arith n bb pp : n < 1073741824 -> bb < 2 -> pp < 2 ->
+  n * 4 + 2 * pp + bb < 4294967296 /\ (n * 4 + 2 * pp + bb) / 4 = n /\
+  n * 4 + 2 * pp + bb = bb + 2 * (2 * n + pp) /\ (n * 4 + 2 * pp + bb) / 2 = pp + 2 * n.
+Proof. intros Hn Hb Hp. repeat split; lia. Qed.
+
+Lemma len_field_facts n b p : n < 1073741824 ->
+  len_field n b p < 4294967296 /\ len_field n b p / 4 = n /\
+  N.odd (len_field n b p) = b /\ N.odd (len_field n b p / 2) = p.
+Proof.
+  intros Hn. unfold len_field.
+  assert (Hb : (if b then 1 else 0) < 2) by (destruct b; lia).
+  assert (Hp : (if p then 2 else 0) = 2 * (if p then 1 else 0)) by (destruct p; lia).
+  assert (Hp' : (if p then 1 else 0) < 2) by (destruct p; lia).
+  rewrite Hp.
+  destruct (len_field_arith n _ _ Hn Hb Hp') as (H1 & H2 & H3 & H4).
+  split; [exact H1|]. split; [exact H2|]. split.
+  - rewrite H3, N.odd_add_mul_2. now destruct b.
+  - rewrite H4, N.odd_add_mul_2. now destruct p.
+Qed.
+
+Lemma len_le_bytes n v : len (le_bytes n v) = N.of_nat n.
+Proof. unfold len. now rewrite length_le_bytes. Qed.
+
+Lemma frame_inv cr bit partial payload fr : frame cr bit partial payload = Ok fr ->
+  len payload < 1073741824 /\
+  fr = le_bytes 4 (cr_crc cr (le_bytes 4 (len_field (len payload) bit partial) ++ payload))
+       ++ le_bytes 4 (len_field (len payload) bit partial) ++ payload.
+Proof.
+  unfold frame. destruct (1073741824 <=? len payload) eqn:E; [discriminate|].
+  intros [= <-]. split; [lia | reflexivity].
+Qed.
+
+Lemma validate_frame cr bit partial payload fr r :
+  crc_ok cr -> payload <> [] -> frame cr bit partial payload = Ok fr ->
+  validate_leader cr (fr ++ r) = Some (mkLeader bit partial (len payload) (payload ++ r)).
+Proof.
+  intros Hcrc Hne Hfr. apply frame_inv in Hfr as [Hlen ->].
+  destruct (len_field_facts (len payload) bit partial Hlen) as (Hlf & Hdiv & Hodd & Hodd2).
+  set (lf := le_bytes 4 (len_field (len payload) bit partial)) in *.
+  unfold validate_leader. rewrite <- !app_assoc.
+  rewrite (take_app_n 4) by apply length_le_bytes.
+  rewrite (take_app_n 4) by apply length_le_bytes.
+  assert (Hv : le_val lf = len_field (len payload) bit partial).
+  { subst lf. apply le_val_le_bytes. exact Hlf. }
+  rewrite Hv, Hdiv, Hodd, Hodd2.
+  assert (len payload =? 0 = false) as ->.
+  { destruct payload; [contradiction|]. rewrite len_cons. lia. }
+  assert (len (payload ++ r) <? len payload = false) as -> by (rewrite len_app; lia).
+  cbn [orb]. unfold len at 1. rewrite Nat2N.id, firstn_app_exact by reflexivity.
+  rewrite le_val_le_bytes by apply Hcrc. rewrite N.eqb_refl. reflexivity.
+Qed.
+
+Lemma frame_length cr bit partial payload fr :
+  frame cr bit partial payload = Ok fr -> len fr = 8 + len payload.
+Proof.
+  intros Hfr. apply frame_inv in Hfr as [_ ->]. rewrite !len_app, !len_le_bytes. lia.
+Qed.
+
+Lemma validate_short cr buf : (length buf < 8)%nat -> validate_leader cr buf = None.
+Proof.
+  intros Hb. unfold validate_leader. destruct (take 4 buf) as [[c r1]|] eqn:E; [|reflexivity].
+  apply take_length in E as [-> Hc]. rewrite app_length in Hb.
+  rewrite take_short by lia. reflexivity.
+Qed.
+
+(* a torn frame with nothing after it is never a frame: no CRC argument needed *)
+Lemma validate_torn_entry_strong cr bit partial payload fr t :
+  frame cr bit partial payload = Ok fr -> (t < length fr)%nat ->
+  validate_leader cr (firstn t fr) = None.
+Proof.
+  intros Hfr Ht. destruct (Nat.lt_ge_cases t 8) as [Hs|Hs].
+  { apply validate_short. rewrite firstn_length. lia. }
+  apply frame_inv in Hfr as [Hlen ->].
+  destruct (len_field_facts (len payload) bit partial Hlen) as (Hlf & Hdiv & _).
+  set (lf := le_bytes 4 (len_field (len payload) bit partial)) in *.
+  set (c := le_bytes 4 (cr_crc cr (lf ++ payload))) in *.
+  assert (Hlc : length c = 4%nat) by apply length_le_bytes.
+  assert (Hll : length lf = 4%nat) by apply length_le_bytes.
+  rewrite !app_length, Hlc, Hll in Ht.
+  rewrite firstn_app, Hlc, (firstn_all2 c) by lia.
+  rewrite firstn_app, Hll, (firstn_all2 lf) by lia.
+  unfold validate_leader.
+  rewrite (take_app_n 4) by assumption. rewrite (take_app_n 4) by assumption.
+  assert (Hv : le_val lf = len_field (len payload) bit partial).
+  { subst lf. apply le_val_le_bytes. exact Hlf. }
+  rewrite Hv, Hdiv.
+  assert (len (firstn (t - 4 - 4) payload) <? len payload = true) as ->.
+  { unfold len. rewrite firstn_length. lia. }
+  rewrite orb_true_r. reflexivity.
+Qed.
+
+Lemma validate_torn_entry cr bit partial payload fr t :
+  frame cr bit partial payload = Ok fr -> (t < length fr)%nat ->
+  validate_leader cr (firstn t fr) = None \/ (exists x y, x <> y /\ cr_crc cr x = cr_crc cr y).
+Proof. intros Hfr Ht. left. eapply validate_torn_entry_strong; eauto. Qed.
+
+(* ---------- 6. node records of the tree store ---------- *)
+
+Lemma skipn_app_exact {A} (a b : list A) n : length a = n -> skipn n (a ++ b) = b.
+Proof.
+  intros <-. rewrite skipn_app, Nat.sub_diag, skipn_all. reflexivity.
+Qed.
+
+Lemma node_to_bytes_length n : Nat.eqb (length (n_hash n)) 32 = true ->
+  length (Merkle.node_to_bytes n) = 40%nat.
+Proof.
+  intros H. apply Nat.eqb_eq in H. unfold Merkle.node_to_bytes.
+  rewrite app_length, length_le_bytes, H. reflexivity.
+Qed.
+
+Lemma node_bytes_roundtrip n : Nat.eqb (length (n_hash n)) 32 = true -> n_length n < 2 ^ 64 ->
+  Merkle.node_from_bytes (n_index n) (Merkle.node_to_bytes n) = n.
+Proof.
+  intros _ Hl. change (2 ^ 64) with 18446744073709551616 in Hl.
+  unfold Merkle.node_from_bytes, Merkle.node_to_bytes.
+  rewrite firstn_app_exact by apply length_le_bytes.
+  rewrite skipn_app_exact by apply length_le_bytes.
+  rewrite le_val_le_bytes by (change (256 ^ N.of_nat 8) with 18446744073709551616; exact Hl).
+  now destruct n.
+Qed.
+
+(* ---------- 5. the slot / bit automaton ---------- *)
+
+Lemma next_slot_current : forall bits, let '(slot, bit, bits') := next_slot bits in
+  current_bit bits' = negb (current_bit bits) /\
+  (slot = 0 \/ slot = HEADER_SIZE) /\
+  (slot = 0 -> fst bits' = bit /\ snd bits' = snd bits) /\
+  (slot = HEADER_SIZE -> snd bits' = bit /\ fst bits' = fst bits).
+Proof.
+  intros [[] []]; vm_compute; repeat split; auto; discriminate.
+Qed.
+
+(* oplog_open with two valid slots carrying bits (b0, b1) decodes slot 0 iff b0 = b1 *)
+Lemma slot_choice : forall bits, let '(slot, _, bits') := next_slot bits in
+  (slot = 0 <-> fst bits <> snd bits) /\
+  (Bool.eqb (fst bits') (snd bits') = true <-> slot = 0).
+Proof.
+  intros [[] []]; vm_compute; repeat split; auto; try discriminate; try congruence;
+    intros H; exfalso; apply H; reflexivity.
+Qed.
+
+Inductive reachable : bool * bool -> Prop :=
+| reach_init : reachable INITIAL_HEADER_BITS
+| reach_next bits : reachable bits -> reachable (snd (next_slot bits)).
+
+Lemma reachable_all bits : reachable bits.
+Proof.
+  pose proof reach_init as H0.
+  pose proof (reach_next _ H0) as H1.
+  pose proof (reach_next _ H1) as H2.
+  pose proof (reach_next _ H2) as H3.
+  destruct bits as [[] []]; [exact H3 | exact H0 | exact H2 | exact H1].
+Qed.
+
+(* what oplog_open reconstructs when only one slot validates *)
+Definition only_slot0_bits (b : bool) : bool * bool := (b, b).
+Definition only_slot1_bits (b : bool) : bool * bool := (negb b, b).
+
+(* bits as seen by an open after the write chosen by [next_slot bits] was torn: the written
+   (non-current) slot is invalid, the other slot still has its old bit *)
+Definition torn_bits (bits : bool * bool) : bool * bool :=
+  let '(slot, _, _) := next_slot bits in
+  if slot =? 0 then only_slot1_bits (snd bits) else only_slot0_bits (fst bits).
+
+Lemma invalid_other_slot : forall bits, reachable bits ->
+  let '(slot, bit, bits') := next_slot bits in
+  torn_bits bits = bits /\
+  current_bit (torn_bits bits) = current_bit bits /\
+  (* the pair designates the old slot, i.e. the one that was not written *)
+  (Bool.eqb (fst (torn_bits bits)) (snd (torn_bits bits)) = true <-> slot = HEADER_SIZE).
+Proof.
+  intros [[] []] _; vm_compute; repeat split; auto; discriminate.
+Qed.
+
+(* ---------- 4. scanning entries ---------- *)
+
+(* the concatenated frames of a list of (entry, partial flag), all carrying header bit [bit] *)
+Fixpoint frames (cr : crypto) (bit : bool) (l : list (entry * bool)) : res bytes :=
+  match l with
+  | [] => Ok []
+  | (e, p) :: r =>
+      payload <- enc_entry e ;;
+      fr <- frame cr bit p payload ;;
+      rest <- frames cr bit r ;;
+      Ok (fr ++ rest)
+  end.
+
+(* frame size of an entry: 8 bytes of leader + its encoding *)
+Definition entry_size (e : entry) : N :=
+  match enc_entry e with Ok b => 8 + len b | _ => 0 end.
+
+Definition scanned_of (l : list (entry * bool)) : list (entry * bool * N) :=
+  map (fun x => (fst x, snd x, entry_size (fst x))) l.
+
+(* [rest] does not start with a valid frame of the current epoch *)
+Definition no_frame_here (cr : crypto) (bit : bool) (rest : bytes) : Prop :=
+  validate_leader cr rest = None \/
+  exists ld, validate_leader cr rest = Some ld /\ ld_bit ld <> bit.
+
+Lemma enc_entry_nonempty e b : enc_entry e = Ok b -> b <> [].
+Proof.
+  unfold enc_entry. intros H. apply bind_ok in H as (ns & _ & H). injection H as <-.
+  cbn [app]. discriminate.
+Qed.
+
+Lemma scan_entries_app_acc cr bit rest : crc_ok cr -> no_frame_here cr bit rest ->
+  forall l fuel body acc,
+    forallb (fun x => entry_ok (fst x)) l = true ->
+    frames cr bit l = Ok body -> (length l < fuel)%nat ->
+    scan_entries cr fuel bit (body ++ rest) acc = Ok (rev acc ++ scanned_of l).
+Proof.
+  intros Hcrc Hrest. induction l as [|[e p] l IH]; intros fuel body acc Hok Hfr Hfuel.
+  - injection Hfr as <-. cbn [app scanned_of map]. rewrite app_nil_r.
+    destruct fuel as [|f]; [cbn in Hfuel; lia|]. cbn [scan_entries].
+    destruct Hrest as [-> | (ld & -> & Hbit)]; [reflexivity|].
+    destruct (ld_bit ld), bit; try reflexivity; exfalso; apply Hbit; reflexivity.
+  - cbn [frames] in Hfr. apply bind_ok in Hfr as (payload & Hp & Hfr).
+    apply bind_ok in Hfr as (fr & Hf & Hfr). apply bind_ok in Hfr as (body' & Hb & Hfr).
+    injection Hfr as <-.
+    cbn [forallb fst] in Hok. apply andb_prop in Hok as [He Hl].
+    destruct fuel as [|f]; [cbn in Hfuel; lia|]. cbn [scan_entries].
+    rewrite <- app_assoc.
+    rewrite (validate_frame cr bit p payload fr (body' ++ rest) Hcrc
+               (enc_entry_nonempty _ _ Hp) Hf).
+    cbn [ld_bit ld_state ld_partial]. rewrite Bool.eqb_reflx. cbn [negb].
+    rewrite (dec_enc_entry e payload (body' ++ rest) He Hp). cbn [lift_enc bind].
+    rewrite (IH f body' _ Hl Hb) by (cbn [length] in Hfuel; lia).
+    cbn [rev scanned_of map fst snd]. rewrite <- app_assoc. cbn [app].
+    unfold entry_size. rewrite Hp.
+    replace (len (fr ++ body' ++ rest) - len (body' ++ rest)) with (8 + len payload); [reflexivity|].
+    rewrite (len_app fr), (frame_length _ _ _ _ _ Hf). lia.
+Qed.
+
+Lemma scan_entries_app cr fuel bit l body rest :
+  crc_ok cr -> forallb (fun x => entry_ok (fst x)) l = true ->
+  frames cr bit l = Ok body -> no_frame_here cr bit rest -> (length l < fuel)%nat ->
+  scan_entries cr fuel bit (body ++ rest) [] = Ok (scanned_of l).
+Proof.
+  intros Hcrc Hok Hfr Hrest Hfuel.
+  exact (scan_entries_app_acc cr bit rest Hcrc Hrest l fuel body [] Hok Hfr Hfuel).
+Qed.
+
+(* the fuel oplog_open passes, [S (length buf)], is always enough *)
+Lemma frames_length cr bit l body : frames cr bit l = Ok body -> (length l <= length body)%nat.
+Proof.
+  revert body; induction l as [|[e p] l IH]; intros body Hfr; [cbn; lia|].
+  cbn [frames] in Hfr. apply bind_ok in Hfr as (payload & Hp & Hfr).
+  apply bind_ok in Hfr as (fr & Hf & Hfr). apply bind_ok in Hfr as (body' & Hb & Hfr).
+  injection Hfr as <-. specialize (IH _ Hb). rewrite app_length. cbn [length].
+  pose proof (frame_length _ _ _ _ _ Hf) as Hl. unfold len in Hl. lia.
+Qed.
+
+Lemma scan_entries_open_fuel cr bit l body rest :
+  crc_ok cr -> forallb (fun x => entry_ok (fst x)) l = true ->
+  frames cr bit l = Ok body -> no_frame_here cr bit rest ->
+  scan_entries cr (S (length (body ++ rest))) bit (body ++ rest) [] = Ok (scanned_of l).
+Proof.
+  intros Hcrc Hok Hfr Hrest. apply scan_entries_app; auto.
+  pose proof (frames_length _ _ _ _ Hfr). rewrite app_length. lia.
+Qed.
+
+(* drop_trailing_partials *)
+
+Definition is_partial (x : entry * bool * N) : bool := snd (fst x).
+
+Lemma drop_trailing_partials_rev rl : exists removed,
+  rl = removed ++ drop_trailing_partials rl /\
+  Forall (fun x => is_partial x = true) removed /\
+  match drop_trailing_partials rl with [] => True | x :: _ => is_partial x = false end.
+Proof.
+  induction rl as [|[[e p] n] rl IH].
+  - exists []. cbn. auto.
+  - destruct p.
+    + cbn [drop_trailing_partials]. destruct IH as (rm & H1 & H2 & H3).
+      exists ((e, true, n) :: rm). split; [cbn [app]; now rewrite <- H1|]. split; [|exact H3].
+      constructor; [reflexivity | exact H2].
+    + exists []. cbn. auto.
+Qed.
+
+Lemma drop_trailing_partials_spec l : exists removed,
+  l = rev (drop_trailing_partials (rev l)) ++ removed /\
+  Forall (fun x => is_partial x = true) removed /\
+  (forall k x, rev (drop_trailing_partials (rev l)) = k ++ [x] -> is_partial x = false).
+Proof.
+  destruct (drop_trailing_partials_rev (rev l)) as (rm & H1 & H2 & H3).
+  exists (rev rm). split; [|split].
+  - rewrite <- rev_app_distr, <- H1. symmetry. apply rev_involutive.
+  - apply Forall_rev. exact H2.
+  - intros k x Hk. apply (f_equal (@rev _)) in Hk. rewrite rev_involutive, rev_app_distr in Hk.
+    cbn [rev app] in Hk. rewrite Hk in H3. exact H3.
+Qed.
+
+Print Assumptions dec_enc_header.
+Print Assumptions enc_header_bytes_ok.
+Print Assumptions dec_enc_entry.
+Print Assumptions enc_entry_ok.
+Print Assumptions validate_frame.
+Print Assumptions frame_length.
+Print Assumptions validate_short.
+Print Assumptions validate_torn_entry_strong.
+Print Assumptions validate_torn_entry.
+Print Assumptions node_to_bytes_length.
+Print Assumptions node_bytes_roundtrip.
+Print Assumptions next_slot_current.
+Print Assumptions slot_choice.
+Print Assumptions reachable_all.
+Print Assumptions invalid_other_slot.
+Print Assumptions scan_entries_app.
+Print Assumptions scan_entries_open_fuel.
+Print Assumptions drop_trailing_partials_spec.
